@@ -2,6 +2,7 @@ package gvc
 
 import (
 	"fmt"
+	"sort"
 	"os"
 	"path/filepath"
 	"regexp"
@@ -74,7 +75,12 @@ func (P *Program) ParseContracts(mirrorDir, specDir string) error {
 	}
 	var srcs []src
 	seen := map[string]bool{}
+	var paths []string
 	for path := range P.ByPath {
+		paths = append(paths, path)
+	}
+	sort.Strings(paths)
+	for _, path := range paths {
 		rel := strings.TrimPrefix(strings.TrimPrefix(path, ModPath), "/")
 		f := filepath.Join(P.RepoDir, rel, "zz_contracts_verif.go")
 		b, err := os.ReadFile(f)
@@ -121,6 +127,7 @@ func (P *Program) ParseContracts(mirrorDir, specDir string) error {
 		var tgt *Block   // block receiving clauses (cur or an opcase of cur)
 		var last *Clause // for continuation lines
 		var axgroup string
+		var lastSpec *SpecFun
 		flushSpec := func() {}
 		_ = flushSpec
 		for i, raw := range s.lines {
@@ -135,8 +142,12 @@ func (P *Program) ParseContracts(mirrorDir, specDir string) error {
 			}
 			where := fmt.Sprintf("%s:%d", s.file, s.lnos[i])
 			switch {
+			case kw == "immutable":
+				P.Immutable = append(P.Immutable, strings.Fields(rest)...)
+				last, lastSpec = nil, nil
 			case blockKw[kw]:
 				last = nil
+				lastSpec = nil
 				axgroup = ""
 				switch kw {
 				case "spec", "define":
@@ -146,6 +157,7 @@ func (P *Program) ParseContracts(mirrorDir, specDir string) error {
 					}
 					P.Specs[sf.Name] = sf
 					cur, tgt = nil, nil
+					lastSpec = sf
 				case "axioms":
 					axgroup = rest
 					cur, tgt = nil, nil
@@ -168,6 +180,7 @@ func (P *Program) ParseContracts(mirrorDir, specDir string) error {
 					P.BlockL = append(P.BlockL, cur)
 				}
 			case clauseKw[kw]:
+				lastSpec = nil
 				if kw == "assume" {
 					if axgroup == "" {
 						return fmt.Errorf("%s: assume outside axioms group", where)
@@ -272,6 +285,14 @@ func (P *Program) ParseContracts(mirrorDir, specDir string) error {
 					tgt = oc
 				}
 			default:
+				if last == nil && lastSpec != nil {
+					if lastSpec.CBody != "" {
+						lastSpec.CBody += " " + line
+					} else {
+						lastSpec.Body += " " + line
+					}
+					continue
+				}
 				if last == nil {
 					return fmt.Errorf("%s: cannot parse %q", where, line)
 				}
@@ -305,9 +326,9 @@ func parseSpecDecl(kw, rest string) (*SpecFun, error) {
 			continue
 		}
 		f := strings.Fields(p)
-		if len(f) == 2 {
+		if len(f) >= 2 {
 			sf.PNames = append(sf.PNames, f[0])
-			sf.Params = append(sf.Params, f[1])
+			sf.Params = append(sf.Params, strings.Join(f[1:], " "))
 		} else {
 			sf.PNames = append(sf.PNames, fmt.Sprintf("a%d", len(sf.Params)))
 			sf.Params = append(sf.Params, f[0])
